@@ -585,6 +585,28 @@ func report(root, prop, tier string, seed int, cfg *PropConfig, runs []*unitRun,
 		fmt.Printf("  failed obligation: %s\n", id)
 		code = 1
 	}
+	// new failing obligations (not claimed, not known-undecided at the last rebase): a violation only if
+	// the replay driver reproduces a failure on the real code; otherwise logged as undecided-new
+	skipSet, _ := loadBaseline(filepath.Join(root, "baseline", prop+".skip"))
+	var undecided []string
+	for _, id := range unclaimed {
+		bare := id
+		if i := strings.Index(id, "] "); strings.HasPrefix(id, "[") && i > 0 {
+			bare = id[i+2:]
+		}
+		if skipSet[id] || skipSet[bare] || len(baseline) == 0 || rebase {
+			continue
+		}
+		path, reproduced := writeReplay(root, replayDir, prop, res[id], cfg)
+		if reproduced {
+			fmt.Printf("VIOLATION property=%s replay=%s\n", prop, path)
+			fmt.Printf("  failed obligation (new, reproduced on the real code): %s\n", id)
+			violations = append(violations, id)
+			code = 1
+		} else {
+			undecided = append(undecided, id)
+		}
+	}
 	for _, t := range kfLines {
 		fmt.Printf("KNOWN-FINDING: property=%s %s\n", prop, t)
 	}
@@ -642,6 +664,7 @@ func report(root, prop, tier string, seed int, cfg *PropConfig, runs []*unitRun,
 		"solver_max_script_ms":     d.Stats.MaxMs,
 		"samples":                  samples,
 		"unclaimed_failing":        unclaimed,
+		"undecided_new":            undecided,
 		"unclaimed_not_attempted_in_quick": sortedBoolKeys(d.Skipped),
 		"discharged_not_claimed":   undecidedNew,
 		"known_findings":           kfLines,
